@@ -52,17 +52,25 @@ def foreign_view(snap):
     out = {}
     for p, e in m.items():
         parent = p.rsplit(b"/", 1)[0] if b"/" in p else b""
-        if parent in FOREIGN_DIRS and p != b"root":
+        if p != b"root" and (parent in FOREIGN_DIRS or is_foreign_dir(parent)):
             out[p] = (e[1], e[3], e[4], e[6], e[7])
     return out
+
+
+def is_foreign_dir(parent):
+    """any directory of the sandbox that is neither the root / below it nor inside something the attacker moved out of the root
+    (the attacker's entries are all named stolen_*): e.g. the levels of the deeper-than-PATH_MAX place outside/deep"""
+    if parent == b"root" or parent.startswith(b"root/"):
+        return False
+    return not any(c.startswith(b"stolen_") for c in parent.split(b"/"))
 
 
 def foreign_ok(before, after, attacked):
     b_, a = foreign_view(before), foreign_view(after)
     problems = []
     for p in sorted(set(a) - set(b_)):
-        if not (attacked and p in ATTACKER_NAMES):
-            problems.append(("added", p.decode("latin1")))
+        if not (attacked and (p in ATTACKER_NAMES or p.rsplit(b"/", 1)[-1].startswith(b"stolen_"))):
+            problems.append(("added", p.decode("latin1")[-200:]))
     for p in sorted(set(b_) - set(a)):
         problems.append(("removed", p.decode("latin1")))
     for p in sorted(set(a) & set(b_)):
@@ -161,7 +169,7 @@ def run(ck):
         "exhaustive": bool(thorough),
         "rule": "static: 15 mutating operation shapes x 21 path spellings aimed at the outside ('..', '.', '', absolute, through links to the root's "
                 "parent / a sibling / a foreign file); schedules: 19 mutating calls (each also on a Root with NO_SYMLINKS when its path names no link) x %s relevant boundaries "
-                "x 11 attacker actions (move out / up, exchange with links, unlink)%s; both backends; "
+                "x 13 attacker actions (move out / up / to a place deeper than PATH_MAX, exchange with links, unlink)%s; both backends; "
                 "oracle on the whole sandbox (root, its parent, sibling directories); distinct by (op, path | boundary+action, backend)"
                 % ("all" if thorough else "sampled (260 per call)", " plus do/undo pairs" if thorough else ""),
         "samples": samples or [{"note": "none"}],
